@@ -479,7 +479,10 @@ type c06Dst struct {
 		Z interface{}
 	}
 	EP *struct{ X string }
+	AN ast.Node // decodes by keeping the bytes it is handed
 }
+
+var c06NodeType = reflect.TypeOf(ast.Node{})
 
 func c06DstText(g *gen) string {
 	var parts []string
@@ -510,6 +513,7 @@ func c06DstText(g *gen) string {
 	add("SS", `[`+plain()+`,`+qs()+`]`)
 	add("E", `{"X":`+plain()+`,"Y":`+g.num()+`,"Z":`+g.num()+`}`)
 	add("EP", `{"X":`+plain()+`}`)
+	add("AN", `{"x":[1,2,3],"y":`+plain()+`}`)
 	add("unknown", g.Doc())
 	return "{" + strings.Join(parts, ",") + "}"
 }
@@ -540,6 +544,14 @@ func deepShowW(sb *strings.Builder, v reflect.Value, depth int) {
 		sb.WriteString("&")
 		deepShowW(sb, v.Elem(), depth+1)
 	case reflect.Struct:
+		if v.Type() == c06NodeType {
+			// an ast.Node keeps a reference to the text it was given: show that text
+			if v.CanAddr() {
+				r, err := v.Addr().Interface().(*ast.Node).Raw()
+				sb.WriteString("node:" + r + ":" + errStr(err))
+			}
+			return
+		}
 		sb.WriteString("{")
 		for i := 0; i < v.NumField(); i++ {
 			sb.WriteString(v.Type().Field(i).Name + ":")
